@@ -70,6 +70,26 @@ def canon(pool_objs):
                     rec.append(('children.indexes', tuple(sorted(((str(n), tuple(ref(c) for c in cs)) for n, cs in ld.get('indexes', {}).items() if cs), key=lambda t: t[0]))))
                     rec.append(('children.traversal', tuple(sorted(((str(n), tuple(ref(c) for c in cs)) for n, cs in ld.get('traversal_indexes', {}).items() if cs), key=lambda t: t[0]))))
                     rec.append(('children.element', ref(ld.get('element'))))
+                    # the memo of ElementProxy objects: which names have one, and any state a proxy carries beyond its two
+                    # defining attributes (the unmodified library keeps none; a change that makes proxies stateful must not
+                    # be merged away by the canonical key)
+                    prox = []
+                    index_lists = list(ld.get('indexes', {}).values()) + list(ld.get('traversal_indexes', {}).values())
+                    for pn, pobj in sorted(ld.get('proxies', {}).items(), key=lambda t: str(t[0])):
+                        extras = []
+                        for ak, av in sorted(_d(pobj).items()):
+                            if ak in ('element_list', 'element_name'):
+                                continue
+                            if isinstance(av, list):
+                                extras.append((ak, 'list', tuple(ref(c) for c in av if isinstance(c, Element)), any(av is L for L in index_lists)))
+                            elif isinstance(av, Element):
+                                extras.append((ak, 'el', ref(av)))
+                            elif isinstance(av, (str, int, float, bool, type(None))):
+                                extras.append((ak, av))
+                            else:
+                                extras.append((ak, type(av).__name__))
+                        prox.append((str(pn), tuple(extras)))
+                    rec.append(('children.proxies', tuple(prox)))
                 else:
                     rec.append(('children', repr(type(v))))
             elif isinstance(v, Element):
@@ -160,7 +180,11 @@ def run_history(spec, hist):
     pool = spec.build()
     model = spec.model_init()
     outs = []
+    obs = spec.observe if hasattr(spec, 'observe') else observe
     for op in hist:
+        # the search observed the state before every operation it applied; the replay does the same, so that a state
+        # is rebuilt by exactly the calls (operations *and* observations) that first reached it
+        obs(pool)
         new_model, _ = spec.model_apply(model, op, pool)
         try:
             spec.apply(pool, op)
@@ -281,7 +305,8 @@ def run_units_collect(units, tier, collect):
         it = map(common._run_unit, tasks)
         pool = None
     else:
-        pool = multiprocessing.get_context('fork').Pool(jobs)
+        # one fresh process per unit: nothing a transition leaves behind in process-wide state reaches another unit
+        pool = multiprocessing.get_context('fork').Pool(jobs, maxtasksperchild=1)
         it = pool.imap_unordered(common._run_unit, tasks, chunksize=1)
     try:
         for idx, r, err in it:
